@@ -61,3 +61,58 @@ PROPS['C10'] = dict(
         O('C10.ns_sequence', 'harness.c10_codec', 'ns_sequence', 60, 300,
           'Namespace(tuple(ns)) == ns, len, +, slicing, startswith'),
     ])
+
+_FF = {'VERIF_FINITE_FLOATS': '1'}
+
+PROPS['C13'] = dict(
+    level='model_checking',
+    encoded=['GridSearchDesigner.__init__/suggest/dump/load/_maybe_shuffled_grid_values', 'pyvizier.Metadata.ns/__setitem__/__getitem__',
+             'ParameterDict', 'TrialSuggestion'],
+    bounds='grid: 2-3 parameters, radices 1..3, _current_index any int >= 0 (arithmetic) / 0..12 (dump-load string hop), '
+           'batch sizes 1..3, shuffle seeds 0..3',
+    outside='eagle, NSGA-II, CMA-ES state (numpy arrays, RNG bit-generator state); quasi-random Halton engine (scipy); '
+            'DOUBLE grid axes (numpy linspace)',
+    assumptions=['random.Random(seed).shuffle executed natively (seed concrete per branch)'],
+    obligations=[
+        O('C13.grid_bijection', 'harness.c13_grid', 'grid_bijection', 120, 600,
+          'suggest at index i and j give the same point iff i == j mod (product of radices): every grid point exactly '
+          'once per period', 'INTEGER x CATEGORICAL radices 1..3, ALL indices i != j >= 0'),
+        O('C13.grid_bijection3', 'harness.c13_grid', 'grid_bijection3', None, 1800,
+          'same with 3 parameters', 'radices (1..2)x(1..3)x(1..3), all indices'),
+        O('C13.grid_restart', 'harness.c13_grid', 'grid_restart', 200, 900,
+          'dump -> fresh instance -> load continues exactly like the live instance', 'index 0..12, batches 1..2'),
+        O('C13.grid_batch_split', 'harness.c13_grid', 'grid_batch_split', 150, 600,
+          'suggest(a); suggest(b) == suggest(a+b) for every start index', 'all indices, a,b in 1..2'),
+        O('C13.grid_shuffled_restart', 'harness.c13_grid', 'grid_shuffled_restart', 200, 900,
+          'shuffled grid: load() restores the shuffle order from metadata; period = grid size',
+          'seeds 0..3, radices 2..3, index 0..9'),
+    ])
+
+PROPS['C03'] = dict(
+    level='model_checking',
+    encoded=['random_sample.sample_uniform/sample_integer/sample_discrete/sample_categorical/get_closest_element/'
+             '_sample_value/sample_parameters', 'GridSearchDesigner.suggest', 'SearchSpace.contains'],
+    bounds='one parameter per type with symbolic bounds / <= 4 feasible values; numpy Generator replaced by a stub '
+           'returning arbitrary in-contract draws',
+    outside='designers whose suggestions are computed by numpy/JAX pipelines (quasi-random, eagle, NSGA-II, CMA-ES, '
+            'BOCS, HARMONICA, GP designers); LOG/REVERSE_LOG scaling; float rounding',
+    assumptions=[],
+    obligations=[
+        O('C03.sample_double', 'harness.c03_random', 'sample_double_in_bounds', 60, 300,
+          'RANDOM_SEARCH kernel: DOUBLE sample within bounds', 'all real bounds, any in-contract draw', env=_FF),
+        O('C03.sample_integer', 'harness.c03_random', 'sample_integer_in_bounds', 60, 300,
+          'INTEGER sample is an int within bounds (round of a uniform draw)', 'all int bounds, any in-contract draw'),
+        O('C03.sample_discrete', 'harness.c03_random', 'sample_discrete_member', 120, 600,
+          'DISCRETE sample is a feasible value (nearest to the draw)', '1..3 feasible values (all reals)', env=_FF),
+        O('C03.sample_discrete4', 'harness.c03_random', 'sample_discrete_member4', 90, 600,
+          'DISCRETE sample is a feasible value', '4 feasible values', env=_FF),
+        O('C03.sample_categorical', 'harness.c03_random', 'sample_categorical_member', 60, 300,
+          'CATEGORICAL sample is a category', '1..4 categories, any index'),
+        O('C03.closest_element', 'harness.c03_random', 'closest_element', 90, 300,
+          'get_closest_element returns a member at minimal distance', '1..3 elements', env=_FF),
+        O('C03.sample_all_assigned', 'harness.c03_random', 'sample_parameters_all_assigned', None, 1200,
+          'every parameter assigned exactly once, in domain', '4 parameters of the 4 types', env=_FF),
+        O('C03.grid_members', 'harness.c13_grid', 'grid_members', 200, 900,
+          'GRID_SEARCH kernel: each suggestion assigns every parameter a member of its domain',
+          'radices 1..3 x 1..3 x 0..2, all indices, count 1..3'),
+    ])
